@@ -57,6 +57,35 @@ CLAIMED = {
         note="The orthonormality premise of the taps is checked numerically per wavelet; bounds in coverage.",
         technique="TLA+ formal orthogonality law over symbolic Gram operators (TLC) + exact and numeric operator replay",
         design="9/C17"),
+    "C13": dict(
+        text="TLC checks the a-trous stage model (periodic index padding, dilated correlation with the flipped filter) "
+             "against swt's definition for every (N, L, dilation), full resolution, circular shift-equivariance as an "
+             "operator identity, and the SWTForward level loop (mode reaching the padding routine, (N,C,4,H,W) "
+             "regrouping, LL feeding the next level). The real afb1d_atrous operators (indicator taps) and SWTForward on "
+             "identity image batches (integer taps, J<=3, default and 'periodic' mode) are compared exactly with TLC's Ref "
+             "operators; shift equivariance is checked exactly on integer data; real wavelets against pywt.swt2.",
+        note="Sizes are multiples of 2^J as pywt.swt2 requires; bounded sizes and dilations.",
+        technique="TLA+ symbolic-operator model (Impl = Ref, shift law) + level-loop state machine (TLC) + exact operator replay",
+        design="9/C13"),
+    "C14": dict(
+        text="TLC checks the wiring model: user 4-tuple -> module buffers -> positional arguments of AFB2D/SFB2D.apply -> "
+             "the dim each afb1d/sfb1d call filters along (SlotsOK), the functional API's wiring, the channel arithmetic "
+             "and band order, and pywt's per-axis shapes with unequal filter lengths. 4-tuples of distinct integer filters "
+             "of unequal lengths are pushed through DWTForward/DWTInverse and afb2d/sfb2d and compared exactly with "
+             "kron(column operator on the vertical axis, row operator on the horizontal axis) of the Ref operators; ordered "
+             "pairs of real wavelets against pywt with one wavelet per axis.",
+        note="Bounded sizes; the per-axis operators are those of C01/C10.",
+        technique="TLA+ wiring model of filter-to-axis assignment (TLC) + exact Kronecker operator replay",
+        design="9/C14"),
+    "C19": dict(
+        text="TLC checks that the per-axis pipeline transcribed from afb2d_nonsep/sfb2d_nonsep equals the separable stage "
+             "model for every (mode, N, L), that the joint pre-padding test equals independent per-axis padding, same raise "
+             "conditions, same band order and channel arithmetic. The real afb2d_nonsep vs afb2d and sfb2d_nonsep vs sfb2d "
+             "are compared on identity batches with integer filters (2- and 4-filter forms, unequal lengths, four modes, "
+             "all residue pairs of sizes in the bounds) with torch.equal; both must raise together.",
+        note="Linearity (C07) lifts the identity batch to all inputs; bounded sizes.",
+        technique="TLA+ per-axis operator equality (TLC) + exact differential replay nonsep vs separable",
+        design="9/C19"),
 }
 
 NOT_YET = "not yet built at this commit (work in progress; see DESIGN.md section 14 for the build order)"
